@@ -490,6 +490,11 @@ def scan(rule, crate, fn_pred, table, kinds, label):
                 if why:
                     rule.ok("%s: `x[..n]` cannot be out of range (%s)" % (fn.path, why), fn, it["line"])
                     continue
+                from . import cursor
+                why = cursor.rest_slicing(crate, fn, it, defs)
+                if why:
+                    rule.ok("%s: `slice[cursor..]` cannot be out of range (%s)" % (fn.path, why), fn, it["line"])
+                    continue
             if it["kind"] == "index" and it["detail"].endswith("[std::ops::RangeFull]"):
                 rule.ok("%s: `[..]` (RangeFull) never panics" % fn.path, fn, it["line"])
                 continue
